@@ -199,6 +199,7 @@ def observe(env):
             "grad_is_ndarray": g is None or type(g) is np.ndarray,
             "const": bool(t.constant),
             "writeable": bool(t.data.flags.writeable),
+            "owner_writeable": bool(t.data.base.flags.writeable) if isinstance(t.data.base, np.ndarray) else None,
             "creator_none": t.creator is None,
             "hasops": len(t._ops) > 0,
             "has_base": t._base is not None,
